@@ -465,21 +465,29 @@ fn writer_tour(case: &Value) {
     for id in case["order"].as_array().unwrap() {
         use vrp_pragmatic::format::JobTypeDimension;
         let id = id.as_str().unwrap();
+        // `job#n` = the n-th task of a multi job
+        let (id, sub) = match id.split_once('#') {
+            Some((id, sub)) => (id, Some(sub.parse::<usize>().unwrap())),
+            None => (id, None),
+        };
         // a vehicle break is the conditional job of type "break"; customer jobs are found by id
         let job = problem
             .jobs
             .all()
             .iter()
             .find(|j| {
-                if id == "break" {
-                    j.dimens().get_job_type().is_some_and(|t| t == "break")
+                if id == "break" || id == "reload" {
+                    j.dimens().get_job_type().is_some_and(|t| t == id)
                 } else {
                     j.dimens().get_job_id().is_some_and(|jid| jid == id)
                 }
             })
             .unwrap_or_else(|| setup_failed("job of the case not found in the problem", id))
             .clone();
-        let single = job.to_single().clone();
+        let single = match (&job, sub) {
+            (Job::Multi(multi), Some(sub)) => multi.jobs[sub].clone(),
+            _ => job.to_single().clone(),
+        };
         let place_idx = case.get("place_index").and_then(|m| m.get(id)).and_then(|v| v.as_u64()).unwrap_or(0) as usize;
         let place = &single.places[place_idx];
         let time = match &place.times[0] {
